@@ -81,6 +81,8 @@ pub const WORDS: &[&str] = &[
     "日本語x", "émigréx", "ﬁancéx", "Ωmega", "don'tx", "hello%world", "a", "Teh",
     // reduplications and other words with unusual letter statistics
     "kuku", "yoyo", "zaza", "Mimi", "bonbonx", "xx", "aaa", "zzzzzz",
+    // words that look like something else to a careless reader or writer of the word list
+    "#hashtagx", "Straßex", "ǅemalx", "pneumonoultramicroscopicsilicovolcanoconiosisesquipedalianismology", "ÀÉÎÕÜx",
 ];
 
 /// More hostile to position arithmetic: astral and combining characters before lints.
